@@ -164,7 +164,7 @@ prop("C05", [
                                                "DnsListenerHandler::build_dns_message", "run_udp_reply", "run_tcp_reply"]),
     dict(engine="verus", unit="outq", fns=["TcpNameserver::send_tcp_query", "TcpNameserver::send_tcp_reply", "create_outquery", "TcpNameserver::handle_reply", "udp_decode",
                                            "OutQuery::handle_query_internal", "OutQuery::handle_query"]),
-    dict(engine="kani", sets=["net_subnet", "dns_ttl"]),
+    dict(engine="kani", sets=["net_subnet", "dns_ttl", "dhcp_ints"]),
 ], explanation="no-panic / no-overflow / in-bounds / termination of the network-facing decoders and of the handlers around them, for all byte strings of all lengths",
     assumptions=["async handlers are verified as a single task; process-level liveness ('still answers the next request') is not decided, only its in-process cause (a panic)"])
 
@@ -192,12 +192,15 @@ prop("C14", [
 
 prop("C15", [
     dict(engine="verus", unit="router"),
-], explanation="longest matching suffix decides (argmax over all matching (route,suffix) pairs), for all route tables and names",
+    # the route table the router decides over is the configured one: parse_dns_route keeps every suffix, in order (real code, bounded)
+    dict(engine="sql", module="routes", domain="every ordered list of 0..=3 suffixes out of 5 nested / case-variant names x 2 handler types (312 route fragments); 860 lists with one invalid entry"),
+], explanation="longest matching suffix decides (argmax over all matching (route,suffix) pairs), for all route tables and names; the table itself: every configured suffix reaches the router (bounded, real loader)",
     assumptions=["configuration read through the RwLock is a snapshot (single task)",
                  "results produced by the resolver below the router are tagged with the server they were sent to (uninterpreted forwarded_to); locally produced errors are never forwarded (axiom)"])
 
 prop("C07", [
     dict(engine="kani", sets=["net_addr", "net_udp_addr"]),
+    dict(engine="verus", unit="netsend"),
     dict(engine="verus", unit="outq"),
 ], explanation="two clauses of C07: (1) the source-address control message carries the receiving address (all 2^32/2^128 addresses, Kani complete); "
                "(2) own answer with many queries in flight: the query sent upstream carries exactly the client's question; on a shared upstream TCP connection a waiter is registered under an id no in-flight query uses and is never overwritten, "
@@ -232,10 +235,12 @@ prop("C11", [
                  "if_mtu above 65535 (only a loopback interface) is outside the contract of the MTU default (`mtu as u16` wraps)"])
 
 prop("C12", [
-    dict(engine="kani", sets=["dhcp_flag", "net_packet", "dhcp_ser"]),
+    dict(engine="kani", sets=["dhcp_flag", "net_packet", "dhcp_ser", "dhcp_ints"]),
     dict(engine="verus", unit="dhcpparse"),      # parse, parse_options, null_terminated and the Buffer primitives they read through
     dict(engine="verus", unit="dhcpser"),
     dict(engine="verus", unit="frame"),
+    # the HashMap glue both units assume (Entry chain of parse_options, iteration of serialise), on the real code
+    dict(engine="sql", module="opts", domain="option areas of <= 3 instances over 2 codes x 7 values of 0..=2 octets (2955 areas); tables of 1..2 options with values of 0, 1, 254..256, 509..511, 765 octets, three fill patterns (216 tables)"),
 ], explanation="Ethernet/IPv4/UDP frame builder: bytes == eth ++ ip_hdr ++ udp_hdr ++ payload with RFC fields, both checksums computed over the right octets and verifying (lemmas), destination = limited broadcast iff broadcast bit; DHCP option encoder == RFC 2132/3396 encoding (split at 255, zero-length kept) for every table, and its decoding by dec_opts gives back the table (lemma); broadcast flag over all 65536 values; one's-complement fold complete over all u32 sums, word summation bounded; DHCP decoder == RFC decoding spec (dec_opts) for all byte strings")
 
 
